@@ -85,7 +85,19 @@ def _shift(node, off):
             rg['lid'] += off
 
 
-def inline_root(fb, root, max_depth=3):
+LIBEVENT = ('event_del', 'event_free', 'event_add', 'event_new', 'evtimer_new', 'event_base_loopexit', 'event_base_loopbreak')
+
+
+def has_timer_calls(func):
+    body = func.d.get('body')
+    return isinstance(body, dict) and any(n.get('callee', {}).get('q', '') in LIBEVENT for n in _walk(body))
+
+
+# further roots: every function of these classes is a root; a callee is inlined when the predicate holds for it
+CLASS_ROOTS = {'uscxml::BasicDelayedEventQueue': has_timer_calls}
+
+
+def inline_root(fb, root, max_depth=3, want=None, members=True):
     """returns a dict `d` for a new Func (or None when nothing is to be inlined)"""
     from .facts import Func
     d = None
@@ -108,9 +120,11 @@ def inline_root(fb, root, max_depth=3):
                 continue
             same_class = callee.rec is not None and callee.rec == root.rec
             file_static = callee.rec is None and callee.file == root.file
-            if not (same_class or file_static):
+            if not ((same_class and members) or file_static):
                 continue
-            if not has_skeleton_events(callee):
+            if callee.q.split('::')[-1].startswith('~') or (callee.rec and callee.q.split('::')[-1] == callee.rec.split('::')[-1]):
+                continue          # constructors / destructors are never inlined
+            if not (want or has_skeleton_events)(callee):
                 continue
             dep = depth_of.get(n.get('id'), 0)
             if dep >= max_depth:
